@@ -284,7 +284,7 @@ def gen_ff(ctx):
                 lines.append(ff_line(nr, rows))
     ctx.extra["ff_exhaustive_scope"] = "all CSR rows of <=2 entries on <=3 vertices; all symmetric graphs on %s vertices" % ("4,5" if thorough else "4")
     hist = {}
-    for _ in range(6000 if thorough else 600):
+    for _ in range(4000 if thorough else 600):
         nr = rng.choice((1, 2, 5, 9, 20, rng.randint(1, 300 if thorough else 80)))
         style = rng.choice(("sym", "sym", "sym-dup", "asym", "paths", "cliques"))
         rows = [[] for _ in range(nr)]
@@ -360,7 +360,7 @@ def gen_scenes(ctx):
     rng = ctx.rng
     thorough = ctx.tier == "thorough"
     lines, hist = [], {}
-    n = 500 if thorough else 44
+    n = 400 if thorough else 44
     for i in range(n):
         size = rng.choice(("tiny", "small", "small", "medium") + (("large",) if thorough else ()))
         nfree = {"tiny": rng.randint(0, 3), "small": rng.randint(2, 10), "medium": rng.randint(8, 30), "large": rng.randint(30, 90)}[size]
@@ -689,7 +689,7 @@ def run(ctx):
         lines += explore_states(ctx, impl, n)
     ctx.extra["exhaustive_small_scope"] = ("every parent array reachable from -1,…,-1 over <= %d trees x every mj_dsuMerge argument pair "
                                            "(incl. static -1) and every mj_dsuRoot call, each followed by mj_dsuAssign" % (6 if thorough else 5))
-    lines += random_dsu(ctx, 6000 if thorough else 500, 3000 if thorough else 300)
+    lines += random_dsu(ctx, 3000 if thorough else 500, 2000 if thorough else 300)
     lines += ["dsu 3 1 1 1 ; m 0 3", "dsu 3 1 1 ; m 0 1", "dsu 2 1 1 ; r -1", "dsu 2 1 1 ; x 0 1", "frob"]
     rc, outs, err = ctx.run_lines([impl], lines)
     ctx.differential("mj_dsuMerge/mj_dsuRoot/mj_dsuAssign vs Lean model", [drv], [impl], lines, keyf=keyf)
